@@ -14,6 +14,8 @@ for n in NAMES:
     TOKENS += ["D " + n, "DL " + n, "DO " + n, "DF " + n, "A " + n, "O " + n, "R " + n, "AL " + n, "AO " + n, "AOR " + n, "DOR " + n, "ALR " + n]
 TOKENS += ["D _", "DL _", "DO _", "R _", "A _", "O _", "DF _", "AOR _", "D _u", "R _u", "DS x", "DS y"]
 TOKENS += ["{", "P x{", "P _{", "FOR x{", "FOR _{", "FORP y{", "}"]
+# declarations whose value is null / false / 0 / "" / [] / {}: the name is declared all the same (not part of the exhaustive product)
+EXTRA = ["DV%d %s" % (i, n) for i in range(6) for n in NAMES]
 
 
 def show(e):
@@ -36,7 +38,12 @@ def build(seq):
         n = parts[1].rstrip("{") if len(parts) > 1 else None
         if op in ("D", "DL", "DO", "DF", "DOR", "DS") and stack[-1][0] in ("param", "for", "forp") and stack[-1][2] == n:
             return None      # redeclaring a parameter / loop target at the top of its own body: unspecified (DESIGN section 5)
-        if op == "D":
+        if op[:2] == "DV":
+            if stack[-1][0] in ("param", "for", "forp") and stack[-1][2] == n:
+                return None
+            val()
+            cur.append(A.Declare(V(n), [A.Null(), A.Bool(False), I(0), S(""), A.lst(), A.obj()][int(op[2])]))
+        elif op == "D":
             cur.append(A.Declare(V(n), val()))
         elif op == "DS":
             cur.append(A.Declare(V(n), A.Bin("+", V(n), val())))
@@ -189,6 +196,12 @@ def run(rep, tier):
     for _ in range(8000 if tier == "quick" else 250000):
         n = rng.choice([4, 5, 6, 7])
         descs.append(("seq", tuple(rng.choice(TOKENS) for _ in range(n))))
+    for e in EXTRA:
+        for t in TOKENS:
+            descs += [("seq", (e, t)), ("seq", (e, t, "R x")), ("seq", ("{", e, t)), ("seq", (e, "{", t)), ("seq", (t, e, "R x"))]
+    for _ in range(2000 if tier == "quick" else 50000):
+        n = rng.choice([3, 4, 5, 6])
+        descs.append(("seq", tuple(rng.choice(TOKENS + EXTRA * 2) for _ in range(n))))
     for kind in NONBIND:
         for pos in POSITIONS:
             descs.append(("nonbind", kind, pos))
